@@ -206,6 +206,66 @@ Definition cell_material (toks : list string) (kmat krho : option string)
   end.
 
 (* ------------------------------------------------------------------------ *)
+(* LIKE n BUT chains: parse_one_cell                                          *)
+(* ------------------------------------------------------------------------ *)
+
+(* an insertion-ordered Python dict with integer keys *)
+Definition idict (A : Type) := list (Z * A).
+Fixpoint ilookup {A} (k : Z) (d : idict A) : option A :=
+  match d with
+  | [] => None
+  | (k', v) :: r => if (k =? k')%Z then Some v else ilookup k r
+  end.
+
+(* the keyword/value entries of a card's options as far as the material is
+   concerned (the tokenizer itself — parse_keywords — is C15's) *)
+Inductive opt := OMat (s : string) | ORho (s : string) | OOther.
+
+(* a parsed cell card: (material tokens, geometry, options), or LIKE n BUT options *)
+Inductive card := Plain (toks : list string) (opts : list opt) | Like (n : Z) (opts : list opt).
+
+(* the LIKE loop: parsed_cell = apply_but(parsed_cells[n], parsed_cell[2]) until
+   the geometry is no longer "like n but": the options of the model cell come
+   first, the cell's own (accumulated) options after them; a missing model cell
+   is a KeyError; cards that are LIKE each other make Python loop forever (EFuel) *)
+Fixpoint like_resolve (fuel : nat) (cards : idict card) (c : card) : res (list string * list opt) :=
+  match c with
+  | Plain toks o => Ok (toks, o)
+  | Like n o =>
+      match fuel with
+      | O => Err EFuel
+      | S f => match ilookup n cards with
+               | None => Err EKey
+               | Some c' => match like_resolve f cards c' with
+                            | Err e => Err e
+                            | Ok (toks, o') => Ok (toks, (o' ++ o)%list)
+                            end
+               end
+      end
+  end.
+
+(* parse_keywords: keywords['material'] / keywords['density'] = the LAST entry *)
+Fixpoint kw_mat (o : list opt) (acc : option string) : option string :=
+  match o with
+  | [] => acc
+  | OMat s :: r => kw_mat r (Some s)
+  | _ :: r => kw_mat r acc
+  end.
+Fixpoint kw_rho (o : list opt) (acc : option string) : option string :=
+  match o with
+  | [] => acc
+  | ORho s :: r => kw_rho r (Some s)
+  | _ :: r => kw_rho r acc
+  end.
+
+(* parse_one_cell, material side *)
+Definition card_material (fuel : nat) (cards : idict card) (c : card) : res (string * option string) :=
+  match like_resolve fuel cards c with
+  | Err e => Err e
+  | Ok (toks, o) => cell_material toks (kw_mat o None) (kw_rho o None)
+  end.
+
+(* ------------------------------------------------------------------------ *)
 (* cells, as far as material assignment is concerned                         *)
 (* ------------------------------------------------------------------------ *)
 
